@@ -43,8 +43,8 @@ STRUCTURAL = ["t_missing_dim", "t_extra_dim", "t_renamed_dim", "t_shifted_coord"
 
 
 @st.composite
-def strategy(draw):
-    cls = draw(st.sampled_from(CLASSES))
+def strategy(draw, cls=None):
+    cls = cls or draw(st.sampled_from(CLASSES))  # (the runner stratifies: every shard runs its slice of CLASSES, one class at a time)
     fault = draw(st.sampled_from(ALL))
     d = draw(cases.model_case([cls if cls != "multi.CCA" else "MCARotator"], max_sd=2, max_fd=2, min_samples=10, allow_weights=False, allow_coslat=False,
                               powers=(1,)))
